@@ -291,6 +291,9 @@ func (r *Rng) c03Map(depth int) map[string]interface{} {
 	if r.P(30) {
 		for i := 0; i < 1+r.Intn(2); i++ {
 			var av interface{} = r.Pick(xmlTexts)
+			if r.P(25) {
+				av = ""
+			}
 			switch r.Intn(4) {
 			case 0:
 				av = float64(r.Intn(9))
